@@ -65,19 +65,32 @@ def rule_tokens(ctx):
         ctx.add("TAB-MAP", "GeneralTerm:%s" % k.split("::")[1], t.get(k) == tok, ctx.site(b), "%s -> `%s` (reference `%s`)" % (k, t.get(k), tok))
     b = printers.display_impl(fx, "tptp", "IntegerTerm")
     p = printers.evaluate(fx, b)
-    arms = {a[0]: a[-1] for a in p.value[2]} if p.value[0] == "match" else {}
+    arms = {pat: ws[0][2] for pat, ws in printers.arm_writes(p.out).items() if len(ws) == 1 and not ws[0][0] and not ws[0][1]}
     ok = arms.get("IntegerTerm::UnaryOperation{}", ("",) * 2)[1] == "{}({})" and arms.get("IntegerTerm::BinaryOperation{}", ("",) * 2)[1] == "{}({}, {})"
     ctx.add("TAB-MAP", "IntegerTerm:application", ok, ctx.site(b), "arithmetic is printed in prefix form op(args) with the operator's token")
     if ok:
         bo = arms["IntegerTerm::BinaryOperation{}"][2]
         order = [x[2][0][1][2][-1][-1] if x[0] == "ctor" else None for x in bo]
         ctx.add("TAB-MAP", "IntegerTerm:operand-order", order == ["op", "lhs", "rhs"], ctx.site(b), "operands in source order: %s" % order)
-    # numerals
-    num = [o for o in p.out if o[0] and o[0][0][0] == ("arm", ("place", "self.0"), "IntegerTerm::Numeral(_)")]
-    neg = [o for o in num if len(o[0]) == 2 and o[0][1][1] is True]
-    pos = [o for o in num if len(o[0]) == 2 and o[0][1][1] is False]
-    N = ("proj", ("place", "self.0"), (("IntegerTerm::Numeral", "0"),))
-    ok = len(neg) == 1 and len(pos) == 1 and neg[0][0][1][0] == ("bin", "Lt", N, ("lit", 0)) and neg[0][2][1] == "$uminus({})" and pos[0][2][:2] == ("write", "{}") and pos[0][2][2] == (N,)
+    # numerals: what is written for a negative, a zero and a positive numeral
+    from .. import leaves as _lv
+    N = _lv.norm(("proj", ("place", "self.0"), (("IntegerTerm::Numeral", "0"),)))
+    NT = printers.flat(fx, b)
+    SELF0 = _lv.norm(("place", "self.0"))
+
+    def numeral_text(k):
+        def decide(c):
+            if c[:1] == ("arm",) and c[1] == SELF0:
+                return c[2] == "IntegerTerm::Numeral(_)"
+            return sym.decide_bool(_lv.replace(c, {N: ("lit", k)}))
+        try:
+            return [ps for _, ps in NT.under(decide)]
+        except printers.Undecided:
+            return None
+    negs = [numeral_text(k) for k in (-1, -5)]
+    poss = [numeral_text(k) for k in (0, 1, 5)]
+    neg = [(None, None, ("write", "$uminus({})", (negs[0][0][1][2],)))] if all(t_ and len(t_) == 1 and len(t_[0]) == 3 and t_[0][0] == "$uminus(" and t_[0][2] == ")" and t_[0][1][:2] == ("hole", "{}") for t_ in negs) and negs[0] == negs[1] else []
+    ok = bool(neg) and all(t_ == [[("hole", "{}", N)]] for t_ in poss)
     ctx.add("TAB-MAP", "IntegerTerm:numeral", ok, ctx.site(b), "n >= 0 is printed as n, n < 0 as $uminus(|n|)")
     if ok:
         m = neg[0][2][2][0]
@@ -244,15 +257,22 @@ def rule_comparison(ctx):
     if len(nxt) == 1:
         ev = sym.Eval(fx, inline_depth=0)
         t = ev.function(nxt[0])
+        # decided on a present and on an exhausted guard list (`if let Some(g) = next()`, `let g = next()?`, `match` are the same to it)
+        from .. import comp as _comp, leaves as _lv2
+        _comp.use(fx)
         G = ("call", "Iterator::next", (("place", "self.guards_iter"),))
-        rel = ("proj", G, (("Option::Some", "0"), ("Guard", "relation")))
-        rhs = ("proj", G, (("Option::Some", "0"), ("Guard", "term")))
-        some = t[2] if t[0] == "if" else None
-        tri = some[2][0][1][1] if some and some[:2] == ("ctor", "Option::Some") else None
-        yields = tri is not None and len(tri) == 3 and tri[0][0] == "fieldof" and tri[0][2] == "lhs" and tri[1] == rel and tri[2] == rhs
+        SOME_G = ("ctor", "Option::Some", (("0", ("ctor", "Guard", (("relation", ("param", "$R")), ("term", ("param", "$T"))))),))
+        NONE_G = ("ctor", "Option::None", ())
+        on = lambda term, val: _comp.decide_literals(_comp.case_of_case(_lv2.replace(term, {G: val})))
+        s_v, n_v = on(t, SOME_G), on(t, NONE_G)
+        n_v = _comp.early_exit(n_v) or n_v
+        tri = dict(s_v[2]).get("0") if isinstance(s_v, tuple) and s_v[:2] == ("ctor", "Option::Some") else None
+        tri = tri[1] if isinstance(tri, tuple) and tri[:1] == ("list",) else None
+        yields = tri is not None and len(tri) == 3 and tri[0][0] == "fieldof" and tri[0][2] == "lhs" and tri[1] == ("param", "$R") and tri[2] == ("param", "$T")
         st = ev.last_env.get("self", [None])[-1]
-        advances = st is not None and repr(("assign-field:self.lhs", (rhs,)))[1:-1] in repr(st)
-        ok = yields and advances and t[3] == ("ctor", "Option::None", ())
+        st_s = on(st, SOME_G) if st is not None else None
+        advances = st_s is not None and repr(("assign-field:self.lhs", (("param", "$T"),)))[1:-1] in repr(st_s)
+        ok = yields and advances and n_v == NONE_G
     ivs = sym.Eval(fx, inline_depth=0).function(ind)
     start = ivs[:2] == ("ctor", "Individuals") and dict(ivs[2]).get("lhs") == ("place", "self.term") and "self.guards" in repr(dict(ivs[2]).get("guards_iter"))
     ctx.add("DISPATCH", "comparison:chain-pairs", ok and start, ctx.site(ind),
